@@ -328,7 +328,15 @@ SPECIAL = ['#', '\\', '{', '}', '[', ']', '(', ')', ' ', '  ', '%', "'", '`',
            'begin', '{}', '{0}', '#!', '/*', '"'[0:0]]
 
 
+WHOLE = ['{', '}', '[', ']', '(', ')', '-', '+', '*', '/', '%', '^', '#', ':',
+         '<', '>', '==', '<=', '!=', 'not', 'and', 'or', 'end', 'begin', 'all',
+         'hue', 'H', 'K', '8:00', '*:*', '5', '-5', '', ' ', 'define', 'as',
+         'with', 'zone', 'row', 'default', 'eof', 'number']
+
+
 def random_string(rng):
+    if rng.random() < 0.2:
+        return rng.choice(WHOLE)      # the whole string is one token-like word
     n = rng.randint(0, 12)
     parts = []
     for _ in range(n):
@@ -353,7 +361,7 @@ def part_strings(ctx):
         if '\n' in s or '\r' in s:
             continue
         trailing = s.endswith('\\')
-        form = rng.randrange(5)
+        form = rng.randrange(7)
         devices = list(DEVICES)
         if form == 0:
             text, want = 'print "{}"'.format(s), [s]
@@ -361,6 +369,12 @@ def part_strings(ctx):
             text, want = 'assign zs "{}"\nprint zs'.format(s), [s]
         elif form == 2:
             text, want = 'define zm "{}"\nprint zm'.format(s), [s]
+        elif form == 5:
+            text, want = ('define zf with zp begin print zp end\n'
+                          'zf "{}"'.format(s)), [s]
+        elif form == 6:
+            text, want = ('define zf with zp zq begin print zp print zq end\n'
+                          '[ zf "{}" 7 ]'.format(s)), [s, 7]
         elif form == 3:
             t = random_string(rng)
             # two strings on one line
